@@ -55,4 +55,13 @@ def done (d : Int) : Except PyErr Int := .ok d
 /-- `LightEvent._set_event_data`: the illuminance over the information field -/
 def light (data : Int) (d : Int) : Except PyErr Int := put90 d data done
 
+/-- `OccupancyEvent._set_event_data` with an integer `data`: the four flags are the low four bits of `data`
+(each compared with its own mask), written one bit at a time over the information field -/
+def occ (data : Int) (d : Int) : Except PyErr Int :=
+  let d := if pyAnd data 1 = 1 then pyOr d 1 else pyAnd d 16777214
+  let d := if pyAnd data 2 = 2 then pyOr d 2 else pyAnd d 16777213
+  let d := if pyAnd data 4 = 4 then pyOr d 4 else pyAnd d 16777211
+  let d := if pyAnd data 8 = 8 then pyOr d 8 else pyAnd d 16777207
+  .ok d
+
 end DaliVerif.EventI
